@@ -154,6 +154,8 @@ struct Ctl {
   m: Mutex<CtlState>,
   cv: Condvar,
   sync_loader: AtomicBool,
+  task_pause_at: AtomicUsize,            // park the next loader task at its J-th H-event after the loader returned
+  task_probe: Mutex<Option<Arc<Probe>>>, // ... through this probe, installed on the task's thread
 }
 struct ExitGuard(Arc<Ctl>);
 impl Drop for ExitGuard {
@@ -165,7 +167,7 @@ impl Drop for ExitGuard {
 }
 impl Ctl {
   fn new(sync_loader: bool) -> Arc<Ctl> {
-    Arc::new(Ctl { m: Mutex::new(CtlState::default()), cv: Condvar::new(), sync_loader: AtomicBool::new(sync_loader) })
+    Arc::new(Ctl { m: Mutex::new(CtlState::default()), cv: Condvar::new(), sync_loader: AtomicBool::new(sync_loader), task_pause_at: AtomicUsize::new(0), task_probe: Mutex::new(None) })
   }
   /// the body of the loader closure: count the run, hand out a fresh value id, wait at the gate
   fn load(self: &Arc<Ctl>, k: u64) -> (Val, u64) {
@@ -186,6 +188,13 @@ impl Ctl {
     self.cv.notify_all();
     let (g2, _) = self.cv.wait_timeout_while(g, Duration::from_secs(120), |s| s.hold && !s.released.contains(&k)).unwrap();
     drop(g2);
+    let j = self.task_pause_at.swap(0, Ordering::SeqCst);
+    if j > 0 {
+      let p = install_probe();
+      p.pause_at_h.store(j, Ordering::SeqCst);
+      *self.task_probe.lock().unwrap() = Some(p);
+      self.cv.notify_all();
+    }
     (Val { id }, loader_cost(k, id))
   }
   fn set_hold(&self, h: bool) {
@@ -486,6 +495,7 @@ fn run_conc(t: &[String]) -> String {
       e.join(k, w);
     }
   }
+  let mut early: Option<bool> = None; // tpause: did the second caller return while the task was parked
   match t[6].as_str() {
     // herd K M : M callers miss on K during one held load
     "herd" => {
@@ -587,6 +597,58 @@ fn run_conc(t: &[String]) -> String {
       e.join(k, b);
       e.quiesce();
     }
+    // tpause K J : the loader task is parked at its J-th own-hasher event after the loader returned
+    // (J=1: before the map write; J=3: after it, before the marker removal); a second caller arrives
+    "tpause" => {
+      let (k, j) = (num(7), num(8) as usize);
+      e.ctl.task_pause_at.store(j, Ordering::SeqCst);
+      let a = e.spawn_fetch(k, 0);
+      let t0 = std::time::Instant::now();
+      let tp = loop {
+        if let Some(p) = e.ctl.task_probe.lock().unwrap().clone() {
+          break Some(p);
+        }
+        if t0.elapsed() > wait_dur() {
+          break None;
+        }
+        std::thread::yield_now();
+      };
+      let paused = tp.as_ref().map(|p| p.wait_paused()).unwrap_or(false);
+      if !paused {
+        hung();
+        e.hang += 1;
+      }
+      let b = e.spawn_fetch(k, 0);
+      // B either returns (hit) or reaches its stripe section (joins the pending load)
+      let t1 = std::time::Instant::now();
+      let mut b_res = None;
+      loop {
+        if let Ok(r) = b.rx.try_recv() {
+          b_res = Some(r);
+          break;
+        }
+        if b.probe.first_a_at_h.load(Ordering::SeqCst) != 0 {
+          break;
+        }
+        if t1.elapsed() > wait_dur() {
+          hung();
+          e.hang += 1;
+          break;
+        }
+        std::thread::yield_now();
+      }
+      if let Some(p) = &tp {
+        p.resume();
+      }
+      e.join(k, a);
+      early = Some(b_res.is_some());
+      match b_res {
+        Some(Ok(id)) => *e.rets.entry((k, id)).or_insert(0) += 1,
+        Some(Err(())) => e.panics += 1,
+        None => e.join(k, b),
+      }
+      e.quiesce();
+    }
     // stress K R T : R rounds x T ungated callers on fresh keys K, K+1, ..; reports rounds with != 1 load
     "stress" => {
       let (k0, r, th) = (num(7), num(8), num(9));
@@ -610,7 +672,10 @@ fn run_conc(t: &[String]) -> String {
     }
     x => panic!("bad scenario {x}"),
   }
-  e.summary()
+  match early {
+    Some(b) => format!("{} | early {}", e.summary(), b as u8),
+    None => e.summary(),
+  }
 }
 
 fn run(toks: &[&str]) -> String {
@@ -625,7 +690,7 @@ fn run(toks: &[&str]) -> String {
     }));
     let _ = tx.send(r.unwrap_or_else(|_| "PANIC".to_string()));
   });
-  let limit = if HUNG.load(Ordering::SeqCst) { Duration::from_secs(10) } else { Duration::from_secs(90) };
+  let limit = if HUNG.load(Ordering::SeqCst) { Duration::from_secs(10) } else { Duration::from_secs(50) };
   rx.recv_timeout(limit).unwrap_or_else(|_| {
     hung();
     "HANG".to_string()
